@@ -198,6 +198,55 @@ def closures_doc(funcs):
     return doc
 
 
+def structs_doc(prog):
+    """{named struct type of the module: [[field name, field type], ...]}"""
+    out = {}
+    for n, t in prog.types.items():
+        if t.get('kind') == 'named' and 'github.com/itchio/wharf' in n:
+            u = prog.types.get(t.get('underlying')) or {}
+            if u.get('kind') == 'struct':
+                out[n] = [[f['name'], f['type']] for f in u['fields']]
+    return out
+
+
+def apply_field_renames(prog):
+    """struct fields that were purely RENAMED since the baseline (same struct, same number of fields, same field types
+    in the same order, only names differ, and neither name is used by another field) get their baseline names back, in
+    the type table and in every field access -- contracts address fields by name.  Returns the list of renames."""
+    base = load().get('#structs') or {}
+    done = []
+    for n, bf in base.items():
+        t = prog.types.get(n)
+        if not t or t.get('kind') != 'named':
+            continue
+        u = prog.types.get(t.get('underlying')) or {}
+        if u.get('kind') != 'struct':
+            continue
+        cf = u['fields']
+        if len(cf) != len(bf) or [f['type'] for f in cf] != [x[1] for x in bf]:
+            continue
+        bnames = [x[0] for x in bf]
+        cnames = [f['name'] for f in cf]
+        if bnames == cnames:
+            continue
+        ok = True
+        for b_, c_ in zip(bnames, cnames):
+            if b_ != c_ and (b_ in cnames or c_ in bnames):
+                ok = False
+        if not ok:
+            continue
+        for f, b_ in zip(cf, bnames):
+            if f['name'] != b_:
+                done.append('%s.%s -> %s' % (n.rsplit('/', 1)[-1], b_, f['name']))
+                f['name'] = b_
+        for fn in prog.funcs.values():
+            for blk in fn['blocks']:
+                for ins in blk['instrs']:
+                    if ins['op'] in ('FieldAddr', 'Field') and ins.get('stype') == n and isinstance(ins.get('field'), int):
+                        ins['fname'] = cf[ins['field']]['name']
+    return done
+
+
 def function_renames(funcs):
     """{current full name: baseline full name} for functions under contract that were RENAMED since the baseline: the
     baseline name is gone, and exactly one function of the same package that the baseline tree did not have carries
@@ -341,6 +390,7 @@ def main():
             if eng.prog.short(name) == (full[0], short) or (eng.prog.short(name)[0] == full[0] and eng.prog.short(name)[1].startswith(short + '$')):
                 doc[name] = shape(fn)
     doc['#closures'] = closures_doc(eng.prog.funcs)
+    doc['#structs'] = structs_doc(eng.prog)
     doc['#allfuncs'] = sorted(eng.prog.funcs)
     doc['#params'] = {n: [p_['name'] for p_ in f['params']] for n, f in eng.prog.funcs.items() if n.startswith(('github.com/itchio/wharf', '(*github.com/itchio/wharf', '(github.com/itchio/wharf'))}
     doc['#fingerprints'] = {name: closure_fp(eng.prog.funcs[name]) for name in doc if not name.startswith('#') and name in eng.prog.funcs}
